@@ -234,9 +234,9 @@ def engine_scenarios(tier, seed):
         scale("lattice", ["b"] * 64, [[j for j in (i - 8, i - 1) if j >= 1 and (j != i - 1 or (i - 1) % 8 != 0)] for i in range(1, 65)], [64])
         scale("roots_50", ["b"] * 50, [[] for _ in range(50)], list(range(1, 51)))
     # watch mode on real inotify: clean-tree start, edits while building, convergence, no rebuild loop
-    for rep_ in range(4 if quick else 24):
-        sc.append({"type": "watchconv", "name": "watchconv_%d" % rep_, "clean_tree": rep_ % 2 == 0, "edits": rng.randint(1, 3),
-                   "gaps": [round(rng.uniform(0.0, 0.45), 2) for _ in range(3)], "during_first_build": rep_ % 4 < 2,
+    for rep_ in range(12 if quick else 48):
+        sc.append({"type": "watchconv", "name": "watchconv_%d" % rep_, "clean_tree": rep_ % 2 == 0, "edits": rng.choice([1, 2, 2, 3]),
+                   "gaps": [rng.choice([0.03, 0.08, 0.12, 0.18, 0.3, 0.45]) for _ in range(3)], "during_first_build": rep_ % 4 < 2,
                    "cfg": dict(gen_configs.finish({"n": 2, "kind": ["b", "b"], "deps": [[], [1]], "roots": [2], "watch": True}, 900 + rep_),
                                id="bbw%d" % rep_, inh=[[], [1]]),
                    "bodies": {}, "actions": []})
